@@ -19,6 +19,8 @@ R-C06.5   leaf_places yields exactly the leaves of a struct/tuple place (c06_lea
 R-C06.6   "used twice"/"not used" are decided leaf by leaf: `_check_assign_targets` and `visit_PlaceNode` are interpreted with a
           struct place whose linear leaf is unused / already used, together with the real Scope methods (c06_aggregate.py); the
           remaining error sites lie inside a loop over the leaves (c06_leafwise.py).
+R-C06.7   place ids are injective: the `id` properties of Variable / FieldAccess / TupleAccess / SubscriptAccess interpreted on a
+          forest of 16 places (same field name under sibling structs, fields below subscripts): same id iff same place (c06_ids.py).
 Not decided: soundness/completeness of the place-based liveness argument as a whole.
 """
 
@@ -273,6 +275,8 @@ def run(ctx: Ctx) -> None:
     c06_leaves.run(ctx)
 
     # ------------------------------------------------------------ R-C06.6 decisions per leaf
+    from . import c06_ids
+    c06_ids.run(ctx)  # R-C06.7: the keys of the scope maps identify places one-to-one
     from . import c06_aggregate, c06_leafwise
     covered: set[str] = set()
     if c06_aggregate.run(ctx):
